@@ -23,6 +23,7 @@ ASSUMPTIONS = [
     '(the calls TorState._bootstrap makes); later ones as real 650+NEWCONSENSUS data-block events through the real protocol',
     'three-valued: lookup of a non-unique nickname may raise or return None',
     'an absent w line means bandwidth 0 (the Router default), not a value carried over',
+    'authority nicknames are unique among authorities (the authorities index is keyed by nickname)',
 ]
 BOUNDS = {'quick': {'documents': 2, 'relays': 3, 'varied_relay': 'presence x nickname x 8 flag subsets x 0..2 a-lines x w-line with 4 bandwidth values, per document',
                     'codec': 'real 20-byte identities with one symbolic byte at every position'},
@@ -57,7 +58,7 @@ def relay_lines(rid, nick, flags, n_a, has_w, bw, has_p):
                    'bw': bw if has_w else 0}
 
 
-def build_doc(r1, r2_present):
+def build_doc(r1, r2_present, r3_dup=False):
     """r1: None or (nick_dup, flagbits, n_a, has_w, bwi, has_p) for relay 1; relay 2 ('dup', Guard) optional; relay 3 fixed"""
     lines = []
     table = {}
@@ -71,7 +72,7 @@ def build_doc(r1, r2_present):
         ls, t = relay_lines(2, 'dup', ['Guard'], 1, True, 7, False)
         lines += ls
         table[2] = t
-    ls, t = relay_lines(3, 'third', ['Authority'], 0, False, 0, True)
+    ls, t = relay_lines(3, 'dup' if r3_dup else 'third', ['Authority'], 0, False, 0, True)
     lines += ls
     table[3] = t
     return lines, table
@@ -118,9 +119,15 @@ def check_view(state, table, objs, step):
     want_guards = sorted(t['id'] for t in table.values() if 'guard' in t['flags'])
     if sorted(state.guards.keys()) != want_guards or any(state.guards[k].id_hex != k for k in state.guards):
         return R('guards-differ-from-document', 'doc %s: view %r document %r', step, sorted(state.guards), want_guards)
-    want_auth = sorted(t['nick'] for t in table.values() if 'authority' in t['flags'])
+    # authorities are keyed by nickname (directory authorities have unique nicknames): compared as a set of names,
+    # and every listed object must carry the flag in this document
+    want_auth = sorted(set(t['nick'] for t in table.values() if 'authority' in t['flags']))
     if sorted(state.authorities.keys()) != want_auth:
         return R('authorities-differ-from-document', 'doc %s: view %r document %r', step, sorted(state.authorities), want_auth)
+    auth_ids = [t['id'] for t in table.values() if 'authority' in t['flags']]
+    for k, r in state.authorities.items():
+        if r.id_hex not in auth_ids:
+            return R('authorities-hold-a-relay-without-the-flag', 'doc %s: %s', step, r.id_hex)
     for k in list(state.routers.keys()):
         if k.startswith('$') and k not in want_ids:
             return R('stale-relay-left-in-routers', 'doc %s: %s', step, k)
@@ -154,8 +161,9 @@ def _docs(cfgs, first_how):
         p.lineReceived(b'250 OK')
     objs = {}
     try:
-        for i, (r1, r2p) in enumerate(cfgs):
-            lines, table = build_doc(r1, r2p)
+        for i, cfg in enumerate(cfgs):
+            r1, r2p = cfg[0], cfg[1]
+            lines, table = build_doc(r1, r2p, cfg[2] if len(cfg) > 2 else False)
             deliver_doc(state, p, lines, first_how if i == 0 else 1, i == 0)
             r = check_view(state, table, objs, i)
             if r:
@@ -184,13 +192,14 @@ FIRST = [
     (None, True),                              # relay 1 absent
     ((False, 0, 0, True, 0, True), False),     # plain relay, bandwidth 0
     ((False, 4, 2, False, 0, False), True),    # Named, no w
+    ((True, 1, 1, True, 2, False), True, True),  # three relays share the nickname
 ]
 
 
 @cond(quick=dict(parts=[{'first': i, 'how': h} for i in range(len(FIRST)) for h in (0, 1)], budget=150))
-def c16_two_documents(first: int, how: int, present: bool, nick_dup: bool, fb: int, n_a: int, has_w: bool, bwi: int, has_p: bool, r2: bool) -> str:
-    """document 1 = one of 6 fixed rich tables (delivered by path `how`), document 2 symbolic"""
-    cfg2 = (_r1(True if present else False, nick_dup, fb, n_a, has_w, bwi, has_p), True if r2 else False)
+def c16_two_documents(first: int, how: int, present: bool, nick_dup: bool, fb: int, n_a: int, has_w: bool, bwi: int, has_p: bool, r2: bool, r3dup: bool) -> str:
+    """document 1 = one of the fixed rich tables (delivered by path `how`), document 2 symbolic (up to three relays may share a nickname)"""
+    cfg2 = (_r1(True if present else False, nick_dup, fb, n_a, has_w, bwi, has_p), True if r2 else False, True if r3dup else False)
     with api.no_tracing():
         return _docs([FIRST[first], cfg2], how)
 
